@@ -182,3 +182,18 @@ check("C08", "model_checking",
       "only (the property is an 'only if'): ValidateSubChain's stale validator view after an identity-update block before the tip is "
       "reported that way",
       "TLA+ fork model + TLC-exported shapes on real ForkResolver + TLC trace validation", "DESIGN.md#c08")
+
+HOOK_COMMITS += ["e4d32c2e", "ba3f45bc", "8467f134"]
+
+check("C12", "model_checking",
+      "Wire.tla is a shape-table model of the peer read path in five layers (msgio frame x compression tag x declared length x "
+      "envelope; every message code x payload class; a presence lattice per message type; 23 tx types x recipients x payloads x "
+      "amounts x sender roles x signatures x entry point; block header/body/certificate x sets of deviations x entry point), crossed "
+      "with state classes, with the invariants Total (every shape ends in a verdict) and Proportionate (allocation <= 64*|frame| + "
+      "16 MiB); TLC enumerates the table and exports every shape; each shape is instantiated as real bytes/objects and pushed through "
+      "the REAL handle()/readStatus/processBatch/ValidateTx/ValidateBlock/AddBlock/ValidateSubChain under recover + watchdog + "
+      "allocation meter; TLC validates every recorded outcome against Trace_Wire (membership in the table, Total, Proportionate).",
+      "exhaustive over the shape lattice (quick: 36k shapes, MaxDev 1, states empty/populated + 4k sampled from the 114k mid table; "
+      "thorough: 342k shapes, MaxDev 2, 6 state classes, + 50k sampled from MaxDev 3); bytes inside a shape are seeded samples; async "
+      "pool hops folded into the call; nil libp2p host; fast sync / snapshot download / engine loops not driven; four findings fixed",
+      "TLA+ shape-table model + TLC-exported shapes instantiated on the real read path + TLC trace validation", "DESIGN.md#c12")
